@@ -293,6 +293,16 @@ theorem converter_output_is_fresh :
     hash seed or an address through an *explicit* call (set iteration is the other way in; that is `π`). -/
 theorem no_process_dependent_calls : Generated.FrontFacts.processDependent = [] := by decide
 
+/-- Tie G for the set-order face of determinism on the `inline` route: the only place in `_public.py`
+    (`build`, `inline`, the initializer / sparse-initializer preamble) and `_inline.py` where an *order* is
+    taken from a set — a loop / comprehension over, or `list`/`tuple`/`join`/`extend`/splat of, a set literal,
+    `set(…)`, `a - b` / `a | b` / `a & b` with a set or dict view on one side, or a local assigned from one —
+    is `for name in missing` in `inline`, which only fills a dictionary read back in list order. A new
+    iteration such as `for n in sparse_defaults.keys() - input_names` adds a row and this fails.
+    (`build`'s own set order enters through `Builder` and is the parameter `π` of the theorems above.) -/
+theorem inline_set_iterations_known :
+    FrontFacts.setIterOk Generated.FrontFacts.setIterations = true := by decide
+
 /-! ## Memoised build results (`Graph._build_result`) -/
 
 /-- **cache_transparent.** For any sequence of reads (`_get_build_result`) and setter calls on a
